@@ -615,6 +615,83 @@ gen_plan_sgl(const ProfileCfg &pc, uint64_t run_seed)
         return p;
 }
 
+// C10: systematic part - every ordered 3-partition (two cut positions i <= j) of short messages, per
+// (variant, algorithm, key size, direction, message length); idx walks the whole table, 12 cut pairs per run
+uint64_t
+sgl_enum_cells()
+{
+        static const uint32_t lens[] = { 1, 15, 16, 17, 31, 32, 33, 47, 48, 63, 64, 65, 80, 127, 128, 129 };
+        uint64_t chunks = 0;
+        for (uint32_t L : lens)
+                chunks += ((uint64_t) (L + 1) * (L + 2) / 2 + 11) / 12;
+        return chunks * 56;
+}
+
+Plan
+gen_plan_sgl_enum(const ProfileCfg &pc, uint64_t run_seed, uint64_t idx)
+{
+        static const uint32_t lens[] = { 1, 15, 16, 17, 31, 32, 33, 47, 48, 63, 64, 65, 80, 127, 128, 129 };
+        const uint32_t nL = sizeof lens / sizeof lens[0];
+        Rng r(run_seed);
+        Plan p;
+        p.seed = run_seed;
+        p.profile = pc.name;
+        p.prop = pc.prop;
+        p.oracles = pc.oracles;
+        idx %= sgl_enum_cells();
+        const int v = (int) (idx % 7);
+        const uint32_t a = (uint32_t) ((idx / 7) % 8);
+        uint64_t rest = idx / 56;
+        uint32_t L = lens[0];
+        for (uint32_t li = 0; li < nL; li++) {
+                const uint64_t ch = ((uint64_t) (lens[li] + 1) * (lens[li] + 2) / 2 + 11) / 12;
+                if (rest < ch) {
+                        L = lens[li];
+                        break;
+                }
+                rest -= ch;
+        }
+        p.task_cfg.push_back(k_variant_cfgs[v]);
+        p.warmup = r.below(256);
+        GenOpts go;
+        go.len_profile = LEN_MIXED;
+        go.max_len = 256;
+        go.offsets = false;
+        go.guard = pc.guard;
+        Suite s;
+        s.cipher = a < 6 ? IMB_CIPHER_GCM_SGL : IMB_CIPHER_CHACHA20_POLY1305_SGL;
+        s.hash = (uint8_t) aead_hash_for(s.cipher);
+        s.key_len = a < 6 ? (uint16_t) (16 + 8 * (a / 2)) : 32;
+        s.dir = (a & 1) ? IMB_DIR_DECRYPT : IMB_DIR_ENCRYPT;
+        s.order = s.dir == IMB_DIR_ENCRYPT ? IMB_ORDER_CIPHER_HASH : IMB_ORDER_HASH_CIPHER;
+        JobSpec base = gen_job_len(r, s, go, L);
+        base.c_off = base.h_off = 0;
+        base.c_len = base.h_len = L;
+        // the rest-th block of 12 pairs (i <= j) in lexicographic order
+        uint64_t first = rest * 12, n = 0;
+        for (uint32_t i = 0; i <= L && p.streams.size() < 12; i++)
+                for (uint32_t j = i; j <= L && p.streams.size() < 12; j++, n++) {
+                        if (n < first)
+                                continue;
+                        SglStream st;
+                        st.base = base;
+                        st.base.inplace = (uint8_t) ((i + j) & 1);
+                        st.base.scatter = (uint8_t) (((i * 31 + j) % 3) ? 1 + (i + j) % 200 : 0);
+                        st.segs = { i, j - i, L - j };
+                        p.streams.push_back(st);
+                }
+        for (size_t k = 0; k < p.streams.size(); k++) {
+                // GCM: INIT, 3 UPDATE, COMPLETE; ChaCha: INIT(seg0), 2 UPDATE, COMPLETE - one op more than needed is harmless
+                for (int q = 0; q < 5; q++) {
+                        Op op;
+                        op.kind = OP_SGL_SEG;
+                        op.a = (int) k;
+                        p.ops.push_back(op);
+                }
+        }
+        return p;
+}
+
 // ------------------------------------------------------------------ C11: key preparation helpers inside ordinary traffic
 Plan
 gen_plan_keyprep(const ProfileCfg &pc, uint64_t run_seed)
